@@ -349,12 +349,12 @@ Ltac dinv_same HC :=
   split; [assumption | let A := fresh "A" in intros A; first [ congruence | apply HC; congruence | apply HC; reflexivity ]].
 
 Definition sub1 (w : N) (e : dev) : nat :=
-  match e with Submit w' _ _ => if w' =? w then 1%nat else 0%nat | _ => 0%nat end.
+  match e with Submit w' _ _ _ => if w' =? w then 1%nat else 0%nat | _ => 0%nat end.
 
 Lemma demux_step_acct : forall s e s' o w, dinv s -> demux_step s e = (s', o) ->
   dinv s' /\ (length (deliveries w o) + npend w (d_map s'))%nat = (npend w (d_map s) + sub1 w e)%nat.
 Proof.
-  intros s e s' o w [HN HC] H. destruct e as [w0 id i| wire |]; unfold demux_step in H.
+  intros s e s' o w [HN HC] H. destruct e as [w0 id q0 i| wire rq |]; unfold demux_step in H.
   - destruct (negb (d_conn s) && io_eqb i IoConnFail).
     { inversion H; subst. split; [split; assumption|]. simpl. destruct (w0 =? w); simpl; lia. }
     destruct (65536 <=? lenN (d_map s)).
@@ -372,11 +372,13 @@ Proof.
     + split; [split; [simpl; constructor; assumption | intros A; discriminate A]|].
       unfold npend. simpl. destruct (w0 =? w); simpl; lia.
   - destruct (d_conn s) eqn:EC.
-    + destruct (map_find wire (d_map s)) as [[orig w1]|] eqn:EF; inversion H; subst.
-      * split; [split; [simpl; apply NoDup_keys_remove; exact HN | intros A; discriminate A]|].
-        pose proof (npend_remove (d_map s) wire orig w1 w HN EF) as P. simpl.
-        destruct (w1 =? w); simpl; simpl in P; lia.
-      * split; [dinv_same HC|]. simpl. lia.
+    + destruct (map_find wire (d_map s)) as [[orig w1]|] eqn:EF.
+      * destruct (question_matches wire rq (d_qs s)); inversion H; subst.
+        -- split; [split; [simpl; apply NoDup_keys_remove; exact HN | intros A; discriminate A]|].
+           pose proof (npend_remove (d_map s) wire orig w1 w HN EF) as P. simpl.
+           destruct (w1 =? w); simpl; simpl in P; lia.
+        -- split; [dinv_same HC|]. simpl. lia.
+      * inversion H; subst. split; [dinv_same HC|]. simpl. lia.
     + inversion H; subst. split; [dinv_same HC|]. simpl. lia.
   - destruct (d_conn s) eqn:EC; inversion H; subst.
     + split; [split; [constructor | reflexivity]|]. rewrite deliveries_teardown. unfold npend. simpl. lia.
@@ -385,7 +387,7 @@ Qed.
 
 Lemma nsub_cons : forall w e r, nsub w (e :: r) = (sub1 w e + nsub w r)%nat.
 Proof.
-  intros w e r. unfold nsub. destruct e as [w0 id i| |]; simpl; try reflexivity.
+  intros w e r. unfold nsub. destruct e as [w0 id q0 i| ? ? |]; simpl; try reflexivity.
   destruct (w0 =? w); reflexivity.
 Qed.
 
@@ -435,80 +437,135 @@ Qed.
 
 (* the ids and the wire: a reply handed to w carries the id w's query was submitted with,
    and arrived with the id w's query was sent under *)
-Definition jinv (subs : list (N * N)) (outs : list dout) (m : list (N * (N * N))) : Prop :=
-  forall wire orig w, In (wire, (orig, w)) m -> In (w, orig) subs /\ In (Sent w wire) outs.
+Definition jinv (subs qsubs : list (N * N)) (outs : list dout)
+           (m : list (N * (N * N))) (qs : list (N * N)) : Prop :=
+  forall wire orig w, In (wire, (orig, w)) m ->
+    In (w, orig) subs /\ In (Sent w wire) outs /\
+    exists q, map_find wire qs = Some q /\ In (w, q) qsubs.
 
-Lemma jinv_mono : forall subs outs m subs' outs', jinv subs outs m ->
-  (forall x, In x subs -> In x subs') -> (forall x, In x outs -> In x outs') -> jinv subs' outs' m.
-Proof. intros subs outs m subs' outs' J A B wire orig w H. destruct (J _ _ _ H). split; auto. Qed.
-
-Lemma teardown_no_reply : forall m w orig wire, ~ In (Deliver w (RReply orig wire)) (teardown m).
+Lemma jinv_mono : forall subs qsubs outs m qs subs' qsubs' outs', jinv subs qsubs outs m qs ->
+  (forall x, In x subs -> In x subs') -> (forall x, In x qsubs -> In x qsubs') ->
+  (forall x, In x outs -> In x outs') -> jinv subs' qsubs' outs' m qs.
 Proof.
-  induction m as [|e m IH]; intros w orig wire A; [destruct A|].
-  simpl in A. destruct A as [A|A]; [discriminate A | exact (IH _ _ _ A)].
+  intros subs qsubs outs m qs subs' qsubs' outs' J A B C wire orig w H.
+  destruct (J _ _ _ H) as (X & Y & q & Z1 & Z2). split; [auto|]. split; [auto|]. exists q. auto.
 Qed.
 
-Lemma demux_step_own : forall s e s' o subs outs, jinv subs outs (d_map s) -> demux_step s e = (s', o) ->
-  jinv (subs ++ submissions [e]) (outs ++ o) (d_map s') /\
-  forall w orig wire, In (Deliver w (RReply orig wire)) o ->
-    In (w, orig) subs /\ In (Sent w wire) outs.
+Lemma teardown_no_reply : forall m w orig wire rq, ~ In (Deliver w (RReply orig wire rq)) (teardown m).
 Proof.
-  intros s e s' o subs outs J H.
-  assert (JM : forall x y, jinv (subs ++ x) (outs ++ y) (d_map s)).
-  { intros x y. eapply jinv_mono; [exact J | intros; apply in_or_app; left; assumption
-                                             | intros; apply in_or_app; left; assumption]. }
-  assert (JE : forall x y, jinv x y []) by (intros x y a b c []).
-  destruct e as [w0 id i| wire |]; unfold demux_step in H.
+  induction m as [|e m IH]; intros w orig wire rq A; [destruct A|].
+  simpl in A. destruct A as [A|A]; [discriminate A | exact (IH _ _ _ _ A)].
+Qed.
+
+Lemma map_remove_key_neq : forall V (m : list (N * V)) k k' v, In (k', v) (map_remove k m) -> k' <> k.
+Proof.
+  induction m as [|[k0 v0] r IH]; intros k k' v H; [destruct H|]. simpl in H.
+  destruct (k0 =? k) eqn:E.
+  - eapply IH. exact H.
+  - apply N.eqb_neq in E. destruct H as [H|H]; [inversion H; subst; exact E | eapply IH; exact H].
+Qed.
+
+Lemma map_find_remove_other : forall V (m : list (N * V)) k k', k' <> k ->
+  map_find k' (map_remove k m) = map_find k' m.
+Proof.
+  induction m as [|[k0 v0] r IH]; intros k k' H; [reflexivity|]. simpl.
+  destruct (k0 =? k) eqn:E.
+  - apply N.eqb_eq in E. subst. rewrite IH by exact H.
+    destruct (k =? k') eqn:E2; [apply N.eqb_eq in E2; congruence | reflexivity].
+  - simpl. destruct (k0 =? k'); [reflexivity | apply IH; exact H].
+Qed.
+
+Lemma in_keys : forall V (m : list (N * V)) k v, In (k, v) m -> In k (keys m).
+Proof. intros V m k v H. unfold keys. apply in_map_iff. exists (k, v). auto. Qed.
+
+Definition sub_of (e : dev) : list (N * N) := submissions [e].
+Definition qsub_of (e : dev) : list (N * N) := questions [e].
+
+Lemma demux_step_own : forall s e s' o subs qsubs outs,
+  jinv subs qsubs outs (d_map s) (d_qs s) -> demux_step s e = (s', o) ->
+  jinv (subs ++ sub_of e) (qsubs ++ qsub_of e) (outs ++ o) (d_map s') (d_qs s') /\
+  forall w orig wire rq, In (Deliver w (RReply orig wire rq)) o ->
+    In (w, orig) subs /\ In (Sent w wire) outs /\ In (w, rq) qsubs.
+Proof.
+  intros s e s' o subs qsubs outs J H.
+  assert (JM : forall x y z, jinv (subs ++ x) (qsubs ++ y) (outs ++ z) (d_map s) (d_qs s)).
+  { intros x y z. eapply jinv_mono; [exact J | | | ]; intros; apply in_or_app; left; assumption. }
+  assert (JE : forall x y z qs, jinv x y z [] qs) by (intros x y z qs a b c []).
+  destruct e as [w0 id q0 i| wire rq |]; unfold demux_step in H.
   - destruct (negb (d_conn s) && io_eqb i IoConnFail).
-    { inversion H; subst. split; [apply JM|]. intros w orig wire [A|[]]. discriminate A. }
+    { inversion H; subst. split; [apply JM|]. intros w orig wire rq [A|[]]. discriminate A. }
     destruct (65536 <=? lenN (d_map s)).
-    { inversion H; subst. split; [apply JM|]. intros w orig wire [A|[]]. discriminate A. }
+    { inversion H; subst. split; [apply JM|]. intros w orig wire rq [A|[]]. discriminate A. }
     destruct (probe (S (length (d_map s))) id (d_map s)) as [wire|] eqn:EP.
-    2:{ inversion H; subst. split; [apply JM|]. intros w orig wire [A|[]]. discriminate A. }
+    2:{ inversion H; subst. split; [apply JM|]. intros w orig wire rq [A|[]]. discriminate A. }
+    apply probe_fresh in EP. apply map_mem_false in EP.
     destruct (io_eqb i IoWriteFail); inversion H; subst.
-    + split; [apply JE|]. intros w orig wire' A. exfalso.
-      apply (teardown_no_reply ((wire, (id, w0)) :: d_map s) w orig wire'). exact A.
+    + split; [apply JE|]. intros w orig wire' rq A. exfalso.
+      apply (teardown_no_reply ((wire, (id, w0)) :: d_map s) w orig wire' rq). exact A.
     + split.
       * intros wire' orig w [A|A].
-        -- inversion A; subst. split; apply in_or_app; right; simpl; auto.
-        -- apply (JM (submissions [Submit w0 id i]) [Sent w0 wire]). exact A.
-      * intros w orig wire' [A|[]]. discriminate A.
+        -- inversion A; subst. split; [apply in_or_app; right; simpl; auto|].
+           split; [apply in_or_app; right; simpl; auto|].
+           exists q0. cbn [d_qs map_find]. rewrite N.eqb_refl. split; [reflexivity|].
+           apply in_or_app. right. simpl. auto.
+        -- destruct (JM (sub_of (Submit w0 id q0 i)) (qsub_of (Submit w0 id q0 i)) [Sent w0 wire] _ _ _ A)
+             as (X & Y & q & Z1 & Z2).
+           split; [exact X|]. split; [exact Y|]. exists q. split; [|exact Z2].
+           cbn [d_qs map_find]. destruct (wire =? wire') eqn:E; [|exact Z1].
+           apply N.eqb_eq in E. subst. exfalso. apply EP. eapply in_keys. exact A.
+      * intros w orig wire' rq [A|[]]. discriminate A.
   - destruct (d_conn s).
-    + destruct (map_find wire (d_map s)) as [[orig w1]|] eqn:EF; inversion H; subst.
-      * split.
-        -- intros wire' orig' w A. simpl in A. apply map_remove_subset in A.
-           apply (JM (submissions [Arrive wire]) [Deliver w1 (RReply orig wire)]). exact A.
-        -- intros w orig' wire' [A|[]]. inversion A; subst. apply J. apply map_find_in. exact EF.
-      * split; [apply JM|]. intros w orig wire' [].
-    + inversion H; subst. split; [apply JM|]. intros w orig wire' [].
+    + destruct (map_find wire (d_map s)) as [[orig w1]|] eqn:EF.
+      * destruct (question_matches wire rq (d_qs s)) eqn:EQ; inversion H; subst.
+        -- split.
+           ++ intros wire' orig' w A. cbn [d_map d_qs] in *.
+              pose proof (map_remove_key_neq _ _ _ _ _ A) as NE. apply map_remove_subset in A.
+              destruct (JM (sub_of (Arrive wire rq)) (qsub_of (Arrive wire rq)) [Deliver w1 (RReply orig wire rq)] _ _ _ A)
+                as (X & Y & q & Z1 & Z2).
+              split; [exact X|]. split; [exact Y|]. exists q. split; [|exact Z2].
+              rewrite map_find_remove_other by exact NE. exact Z1.
+           ++ intros w orig' wire' rq' [A|[]]. inversion A; subst.
+              destruct (J _ _ _ (map_find_in _ _ _ _ EF)) as (X & Y & q & Z1 & Z2).
+              split; [exact X|]. split; [exact Y|].
+              unfold question_matches in EQ. rewrite Z1 in EQ. apply N.eqb_eq in EQ. subst. exact Z2.
+        -- split; [apply JM|]. intros w orig' wire' rq' [].
+      * inversion H; subst. split; [apply JM|]. intros w orig' wire' rq' [].
+    + inversion H; subst. split; [apply JM|]. intros w orig wire' rq' [].
   - destruct (d_conn s); inversion H; subst.
-    + split; [apply JE|]. intros w orig wire' A. exfalso.
-      apply (teardown_no_reply (d_map s) w orig wire'). exact A.
-    + split; [apply JM|]. intros w orig wire' [].
+    + split; [apply JE|]. intros w orig wire' rq A. exfalso.
+      apply (teardown_no_reply (d_map s) w orig wire' rq). exact A.
+    + split; [apply JM|]. intros w orig wire' rq [].
 Qed.
 
 Lemma submissions_app : forall a b, submissions (a ++ b) = submissions a ++ submissions b.
 Proof.
   induction a as [|e a IH]; intros b; [reflexivity|]. destruct e; simpl; rewrite IH; reflexivity.
 Qed.
-
-Lemma demux_run_own : forall evs s s' o subs outs, jinv subs outs (d_map s) -> demux_run s evs = (s', o) ->
-  jinv (subs ++ submissions evs) (outs ++ o) (d_map s') /\
-  forall w orig wire, In (Deliver w (RReply orig wire)) o ->
-    In (w, orig) (subs ++ submissions evs) /\ In (Sent w wire) (outs ++ o).
+Lemma questions_app : forall a b, questions (a ++ b) = questions a ++ questions b.
 Proof.
-  induction evs as [|e r IH]; intros s s' o subs outs J H.
-  - simpl in H. inversion H; subst. simpl. rewrite !app_nil_r. split; [exact J|]. intros w orig wire [].
+  induction a as [|e a IH]; intros b; [reflexivity|]. destruct e; simpl; rewrite IH; reflexivity.
+Qed.
+
+Lemma demux_run_own : forall evs s s' o subs qsubs outs,
+  jinv subs qsubs outs (d_map s) (d_qs s) -> demux_run s evs = (s', o) ->
+  jinv (subs ++ submissions evs) (qsubs ++ questions evs) (outs ++ o) (d_map s') (d_qs s') /\
+  forall w orig wire rq, In (Deliver w (RReply orig wire rq)) o ->
+    In (w, orig) (subs ++ submissions evs) /\ In (Sent w wire) (outs ++ o) /\
+    In (w, rq) (qsubs ++ questions evs).
+Proof.
+  induction evs as [|e r IH]; intros s s' o subs qsubs outs J H.
+  - simpl in H. inversion H; subst. simpl. rewrite !app_nil_r. split; [exact J|]. intros w orig wire rq [].
   - simpl in H. destruct (demux_step s e) as [s1 o1] eqn:E1.
     destruct (demux_run s1 r) as [s2 o2] eqn:E2. inversion H; subst.
-    destruct (demux_step_own s e s1 o1 subs outs J E1) as [J1 D1].
-    destruct (IH s1 s' o2 _ _ J1 E2) as [J2 D2].
-    change (e :: r) with ([e] ++ r). rewrite submissions_app.
+    destruct (demux_step_own s e s1 o1 subs qsubs outs J E1) as [J1 D1].
+    destruct (IH s1 s' o2 _ _ _ J1 E2) as [J2 D2].
+    unfold sub_of, qsub_of in *.
+    change (e :: r) with ([e] ++ r). rewrite submissions_app, questions_app.
     rewrite <- ?app_assoc in J2, D2. rewrite <- ?app_assoc.
     split; [exact J2|].
-    intros w orig wire A. apply in_app_or in A. destruct A as [A|A].
-    + destruct (D1 _ _ _ A) as [X Y]. split; apply in_or_app; left; assumption.
-    + exact (D2 _ _ _ A).
+    intros w orig wire rq A. apply in_app_or in A. destruct A as [A|A].
+    + destruct (D1 _ _ _ _ A) as (X & Y & Z). repeat split; apply in_or_app; left; assumption.
+    + exact (D2 _ _ _ _ A).
 Qed.
 
 Lemma demux_run_app : forall a b s,
@@ -540,7 +597,8 @@ Theorem demux_exactly_once : forall evs s o,
   (forall w id, In (w, id) (submissions evs) ->
      (pending w (d_map s) = false -> exists r, deliveries w o = [r]) /\
      (pending w (d_map s) = true -> deliveries w o = []) /\
-     (forall orig wire, In (RReply orig wire) (deliveries w o) -> orig = id /\ In (Sent w wire) o)) /\
+     (forall orig wire rq, In (RReply orig wire rq) (deliveries w o) ->
+        orig = id /\ In (Sent w wire) o /\ In (w, rq) (questions evs))) /\
   (forall w, ~ In w (map fst (submissions evs)) -> deliveries w o = [] /\ pending w (d_map s) = false).
 Proof.
   intros evs s o H HN. split.
@@ -555,10 +613,10 @@ Proof.
     + intros P. destruct (npend w (d_map s)) eqn:E.
       * apply pending_npend in E. congruence.
       * destruct (deliveries w o); [reflexivity | simpl in A; lia].
-    + intros orig wire HD. apply deliveries_in in HD.
-      assert (J0 : jinv [] [] (d_map d_init)) by (intros a b c []).
-      destruct (demux_run_own evs d_init s o [] [] J0 H) as [_ D].
-      destruct (D _ _ _ HD) as [X Y]. simpl in X, Y. split; [|exact Y].
+    + intros orig wire rq HD. apply deliveries_in in HD.
+      assert (J0 : jinv [] [] [] (d_map d_init) (d_qs d_init)) by (intros a b c []).
+      destruct (demux_run_own evs d_init s o [] [] [] J0 H) as [_ D].
+      destruct (D _ _ _ _ HD) as (X & Y & Z). simpl in X, Y, Z. split; [|split; [exact Y|exact Z]].
       eapply nodup_fst_inj; eassumption.
   - intros w HNI.
     destruct (demux_run_acct evs d_init s o w dinv_init H) as [_ A].
@@ -587,7 +645,7 @@ Lemma odead_absorbing : forall evs s, o_dead s = true ->
 Proof.
   induction evs as [|e r IH]; intros s HD; [split; [reflexivity | intros x []]|].
   simpl. assert (E : exists o1, odemux_step s e = (s, o1) /\ forall x, In x o1 -> exists w, x = Deliver w RErrInternal).
-  { destruct e as [w id i| wire |]; unfold odemux_step; rewrite HD.
+  { destruct e as [w id q i| wire rq |]; unfold odemux_step; rewrite HD.
     - exists [Deliver w RErrInternal]. split; [reflexivity|]. intros x [A|[]]. exists w. auto.
     - exists []. split; [reflexivity | intros x []].
     - exists []. split; [reflexivity | intros x []]. }
@@ -610,22 +668,22 @@ Qed.
 Theorem demux_collision_refuted :
   exists evs,
     (* two waiters, no I/O failure, no connection event, nobody answered ... *)
-    evs = [Submit 0 7 IoOk; Submit 1 7 IoOk] /\
+    evs = [Submit 0 7 100 IoOk; Submit 1 7 101 IoOk] /\
     NoDup (map fst (submissions evs)) /\
     deliveries 0 (snd (odemux_run o_init evs)) = [RErrInternal] /\
     deliveries 1 (snd (odemux_run o_init evs)) = [RErrInternal] /\
     (* ... and every later query through this task fails, whatever id it carries *)
-    forall more w id i,
-      In (Deliver w RErrInternal) (snd (odemux_run o_init (evs ++ more ++ [Submit w id i]))) /\
-      forall r, In (Deliver w r) (snd (odemux_run (fst (odemux_run o_init evs)) (more ++ [Submit w id i]))) ->
+    forall more w id q i,
+      In (Deliver w RErrInternal) (snd (odemux_run o_init (evs ++ more ++ [Submit w id q i]))) /\
+      forall r, In (Deliver w r) (snd (odemux_run (fst (odemux_run o_init evs)) (more ++ [Submit w id q i]))) ->
                 r = RErrInternal.
 Proof.
-  exists [Submit 0 7 IoOk; Submit 1 7 IoOk]. split; [reflexivity|].
+  exists [Submit 0 7 100 IoOk; Submit 1 7 101 IoOk]. split; [reflexivity|].
   split; [simpl; repeat constructor; simpl; intuition discriminate|].
   split; [reflexivity|]. split; [reflexivity|].
-  intros more w id i.
+  intros more w id q i.
   set (dead := {| o_map := []; o_conn := false; o_dead := true |}).
-  assert (E0 : odemux_run o_init [Submit 0 7 IoOk; Submit 1 7 IoOk] =
+  assert (E0 : odemux_run o_init [Submit 0 7 100 IoOk; Submit 1 7 101 IoOk] =
                (dead, [Sent 0 7; Deliver 1 RErrInternal; Deliver 0 RErrInternal])) by reflexivity.
   assert (HD : o_dead dead = true) by reflexivity.
   split.
@@ -634,14 +692,14 @@ Proof.
     destruct (odemux_run dead more) as [s1 o1]. simpl in M1. subst s1.
     simpl. right. right. right. apply in_or_app. right. left. reflexivity.
   - rewrite E0. simpl fst. intros r A.
-    destruct (odead_absorbing (more ++ [Submit w id i]) dead HD) as [_ M2].
+    destruct (odead_absorbing (more ++ [Submit w id q i]) dead HD) as [_ M2].
     destruct (M2 _ A) as [w' Hw]. inversion Hw. reflexivity.
 Qed.
 
 (* the repaired machine on the same events: both are sent, with different wire ids *)
 Lemma demux_collision_repaired :
-  snd (demux_run d_init [Submit 0 7 IoOk; Submit 1 7 IoOk; Arrive 8; Arrive 7]) =
-  [Sent 0 7; Sent 1 8; Deliver 1 (RReply 7 8); Deliver 0 (RReply 7 7)].
+  snd (demux_run d_init [Submit 0 7 100 IoOk; Submit 1 7 101 IoOk; Arrive 8 101; Arrive 7 100]) =
+  [Sent 0 7; Sent 1 8; Deliver 1 (RReply 7 8 101); Deliver 0 (RReply 7 7 100)].
 Proof. reflexivity. Qed.
 
 (* ---- the code as found behaves like the repaired code as long as no
@@ -675,13 +733,18 @@ Proof. intros m. unfold lenN, lift. rewrite map_length. reflexivity. Qed.
 
 Lemma sim_step : forall os s e, sim os s ->
   match e with
-  | Submit _ id _ => map_mem id (o_map os) = false /\ lenN (o_map os) < 65536
+  | Submit _ id _ _ => map_mem id (o_map os) = false /\ lenN (o_map os) < 65536
+  | Arrive wire rq =>
+    match map_find wire (d_map s) with
+    | Some _ => question_matches wire rq (d_qs s) = true
+    | None => True
+    end
   | _ => True
   end ->
   snd (odemux_step os e) = snd (demux_step s e) /\ sim (fst (odemux_step os e)) (fst (demux_step s e)).
 Proof.
-  intros os s e [HM [HC HD]] Pre. destruct s as [dm dc]. simpl in HM, HC. subst dm dc.
-  destruct e as [w id i| wire |]; unfold odemux_step, demux_step; rewrite HD; cbn [d_map d_conn].
+  intros os s e [HM [HC HD]] Pre. destruct s as [dm dq dc]. simpl in HM, HC. subst dm dc.
+  destruct e as [w id q i| wire rq |]; unfold odemux_step, demux_step; rewrite HD; cbn [d_map d_conn d_qs] in *.
   - destruct Pre as [PM PL].
     destruct (negb (o_conn os) && io_eqb i IoConnFail).
     { simpl. split; [reflexivity|]. split; [reflexivity|]. split; [reflexivity|exact HD]. }
@@ -692,8 +755,8 @@ Proof.
     + split; [f_equal; symmetry; apply teardown_lift|]. split; [reflexivity|]. split; reflexivity.
     + split; [reflexivity|]. split; [reflexivity|]. split; reflexivity.
   - destruct (o_conn os) eqn:EC.
-    + rewrite map_find_lift. destruct (map_find wire (o_map os)) as [w|]; simpl.
-      * split; [reflexivity|]. split; [apply map_remove_lift|]. split; reflexivity.
+    + rewrite map_find_lift in *. destruct (map_find wire (o_map os)) as [w|]; simpl in *.
+      * rewrite Pre. simpl. split; [reflexivity|]. split; [apply map_remove_lift|]. split; reflexivity.
       * split; [reflexivity|]. split; [reflexivity|]. split; [simpl; congruence | exact HD].
     + simpl. split; [reflexivity|]. split; [reflexivity|]. split; [simpl; congruence | exact HD].
   - destruct (o_conn os) eqn:EC; simpl.
@@ -701,22 +764,63 @@ Proof.
     + split; [reflexivity|]. split; [reflexivity|]. split; [simpl; congruence | exact HD].
 Qed.
 
-Lemma sim_run : forall evs os s, sim os s -> no_collision os evs ->
+Lemma sim_run : forall evs os s, sim os s -> no_collision os evs -> well_answered s evs ->
   snd (odemux_run os evs) = snd (demux_run s evs) /\
   sim (fst (odemux_run os evs)) (fst (demux_run s evs)).
 Proof.
-  induction evs as [|e r IH]; intros os s HS HN; [split; [reflexivity | exact HS]|].
-  destruct HN as [Pre HN]. destruct (sim_step os s e HS Pre) as [E1 S1].
+  induction evs as [|e r IH]; intros os s HS HN HW; [split; [reflexivity | exact HS]|].
+  destruct HN as [Pre HN]. destruct HW as [PreW HW].
+  assert (Pre' : match e with
+                 | Submit _ id _ _ => map_mem id (o_map os) = false /\ lenN (o_map os) < 65536
+                 | Arrive wire rq => match map_find wire (d_map s) with
+                                     | Some _ => question_matches wire rq (d_qs s) = true
+                                     | None => True end
+                 | _ => True end) by (destruct e; assumption).
+  destruct (sim_step os s e HS Pre') as [E1 S1].
   simpl. destruct (odemux_step os e) as [os1 oo1]. destruct (demux_step s e) as [s1 o1].
-  simpl in E1, S1, HN. destruct (IH os1 s1 S1 HN) as [E2 S2].
+  simpl in E1, S1, HN, HW. destruct (IH os1 s1 S1 HN HW) as [E2 S2].
   destruct (odemux_run os1 r) as [os2 oo2]. destruct (demux_run s1 r) as [s2 o2].
   simpl in *. subst. split; [reflexivity | exact S2].
 Qed.
 
-Theorem orig_agrees_without_collision : forall evs, no_collision o_init evs ->
+Theorem orig_agrees_without_collision : forall evs, no_collision o_init evs -> well_answered d_init evs ->
   snd (odemux_run o_init evs) = snd (demux_run d_init evs) /\
   o_dead (fst (odemux_run o_init evs)) = false.
 Proof.
-  intros evs H. assert (S0 : sim o_init d_init) by (split; [reflexivity | split; reflexivity]).
-  destruct (sim_run evs o_init d_init S0 H) as [E [_ [_ D]]]. split; assumption.
+  intros evs H HW. assert (S0 : sim o_init d_init) by (split; [reflexivity | split; reflexivity]).
+  destruct (sim_run evs o_init d_init S0 H HW) as [E [_ [_ D]]]. split; assumption.
+Qed.
+
+(* ===================================================================== *)
+(* composition: the answer a client gets is the answer to its own question *)
+(* ===================================================================== *)
+Lemma questions_fst : forall evs, map fst (questions evs) = map fst (submissions evs).
+Proof. induction evs as [|e r IH]; [reflexivity|]. destruct e; simpl; congruence. Qed.
+
+Theorem own_answer : forall evs s o,
+  demux_run d_init evs = (s, o) ->
+  NoDup (map fst (submissions evs)) ->
+  forall w id q, In (w, id) (submissions evs) -> In (w, q) (questions evs) ->
+  forall t, In t (deliveries w o) ->
+  forall client_tcp u cq up,
+    let rep := in_reply_of cq up (handle_query_model client_tcp id u t) in
+    ir_qid rep = cq /\
+    match answered_question client_tcp id q u t with
+    | Some q' => q' = q /\ ir_from_upstream rep = true /\ ir_rcode rep = up
+    | None => ir_rcode rep = SERVFAIL /\ ir_from_upstream rep = false
+    end.
+Proof.
+  intros evs s o H HN w id q HI HQ t HT client_tcp u cq up.
+  assert (TQ : forall orig wire rq, t = RReply orig wire rq -> rq = q).
+  { intros orig wire rq ->.
+    destruct (demux_exactly_once evs s o H HN) as [A _].
+    destruct (A w id HI) as (_ & _ & B). destruct (B _ _ _ HT) as (_ & _ & Z).
+    eapply nodup_fst_inj; [rewrite questions_fst; exact HN | exact Z | exact HQ]. }
+  split.
+  - destruct (handle_query_model client_tcp id u t); reflexivity.
+  - unfold answered_question, handle_query_model. destruct client_tcp.
+    + destruct t as [orig wire rq| | |]; simpl; auto. split; [eapply TQ; reflexivity | auto].
+    + destruct u as [rid tc|e]; [|simpl; auto].
+      destruct (accept_udp id rid tc); [simpl; auto|].
+      destruct t as [orig wire rq| | |]; simpl; auto. split; [eapply TQ; reflexivity | auto].
 Qed.
